@@ -82,6 +82,46 @@ def term_key(v):
     return ("other", id(v))
 
 
+def linear_of(v):
+    """{atom name: coefficient, "1": constant} of a numeric term that is linear in its atoms, else None"""
+    if isinstance(v, bool):
+        return None
+    if isinstance(v, (int, float)):
+        return {"1": float(v)} if v else {}
+    if isinstance(v, Sym):
+        return {v.name: 1.0}
+    if not isinstance(v, Term):
+        return None
+    a = [linear_of(x) for x in v.args]
+    if any(x is None for x in a):
+        return None
+
+    def scale(d, k):
+        return {n: c * k for n, c in d.items() if c * k}
+
+    def add(d, e, sgn=1.0):
+        out = dict(d)
+        for n, c in e.items():
+            out[n] = out.get(n, 0.0) + sgn * c
+        return {n: c for n, c in out.items() if c}
+
+    if v.op == "+":
+        return add(a[0], a[1])
+    if v.op == "-":
+        return add(a[0], a[1], -1.0)
+    if v.op == "neg":
+        return scale(a[0], -1.0)
+    if v.op == "*":
+        if set(a[0]) <= {"1"}:
+            return scale(a[1], a[0].get("1", 0.0))
+        if set(a[1]) <= {"1"}:
+            return scale(a[0], a[1].get("1", 0.0))
+        return None
+    if v.op == "/" and set(a[1]) <= {"1"} and a[1].get("1"):
+        return scale(a[0], 1.0 / a[1]["1"])
+    return None
+
+
 def is_numeric(v):
     return isinstance(v, Term) or (isinstance(v, Sym) and v.kind in ("num", "int")) or (isinstance(v, (int, float)) and not isinstance(v, bool))
 
@@ -169,6 +209,23 @@ class DictV:
     def __init__(self, d=None):
         self.d = dict(d or {})
 
+    @staticmethod
+    def alias(d):
+        """a dictionary value that *is* the given dict (used for obj.__dict__)"""
+        v = DictV()
+        v.d = d
+        return v
+
+
+class IdV:
+    """id(x): only usable as a dictionary key and in equality tests"""
+
+    def __init__(self, of):
+        self.of = of
+
+    def __repr__(self):
+        return "id(%r)" % (self.of,)
+
 
 class Obj:
     def __init__(self, cls, fields=None, closed=False, label=None):
@@ -229,6 +286,8 @@ def same(a, b):
         return type(a) is type(b) and len(a.items) == len(b.items) and all(same(x, y) for x, y in zip(a.items, b.items))
     if isinstance(a, DictV) and isinstance(b, DictV):
         return set(a.d) == set(b.d) and all(same(a.d[k], b.d[k]) for k in a.d)
+    if isinstance(a, IdV) and isinstance(b, IdV):
+        return a.of is b.of
     if isinstance(a, EnumMember) and isinstance(b, EnumMember):
         return a.cls is b.cls and a.name == b.name
     if isinstance(a, NoneT) or isinstance(b, NoneT):
@@ -658,7 +717,7 @@ class PatternV:
         self.pattern = pattern
 
 
-BUILTINS = {"hasattr", "getattr", "callable", "round", "abs", "super", "map", "filter", "str", "int", "len", "isinstance", "bool", "list", "tuple", "enumerate", "zip", "all", "any", "float", "repr", "type", "dict", "set", "range", "sorted", "min", "max"}
+BUILTINS = {"id", "setattr", "hasattr", "getattr", "callable", "round", "abs", "super", "map", "filter", "str", "int", "len", "isinstance", "bool", "list", "tuple", "enumerate", "zip", "all", "any", "float", "repr", "type", "dict", "set", "range", "sorted", "min", "max"}
 
 
 def decorators(fn):
@@ -673,6 +732,9 @@ class Ev:
         self.opaque_calls = set(opaque_calls)  # "Class.method" evaluated to Ctor(name, args) without looking inside
         self.stubs = {}  # "Class.method" -> callable(bound arguments) giving the abstract result
         self.syms = {}  # name -> Sym, for atoms used as dictionary keys
+        self.ids = {}  # python id -> IdV, for id(x) used as dictionary keys
+        self.assume_valid = True  # argument validators (commonroad.common.validity.is_*) hold for the symbolic inputs
+        self.instantiate = set()  # class names whose constructor is evaluated (an Obj is built) instead of recorded
         self.oracle = None  # callable(kind, a, b) -> True / False / None: decides tests on atoms for the shape case
         self.pure_modules = set()  # roots of outside modules whose functions are uninterpreted pure functions
         self.pure_calls = set()  # dotted names of outside functions treated as uninterpreted pure functions (Term)
@@ -794,6 +856,9 @@ class Ev:
             return ("sym", v.name)
         if isinstance(v, TupV):
             return tuple(self.key_of(x) for x in v.items)
+        if isinstance(v, IdV):
+            self.ids[id(v.of)] = v
+            return ("id", id(v.of))
         raise Undecided("dictionary key %r" % (v,))
 
     def unkey(self, k):
@@ -801,6 +866,8 @@ class Ev:
             return Str.lit(k)
         if isinstance(k, tuple) and len(k) == 2 and k[0] == "sym":
             return self.syms.get(k[1], Frag("key %r" % (k,)))
+        if isinstance(k, tuple) and len(k) == 2 and k[0] == "id":
+            return self.ids.get(k[1], Frag("key %r" % (k,)))
         return k
 
     def to_str(self, v):
@@ -885,6 +952,10 @@ class Ev:
     # ---- attribute access
     def getattr(self, v, attr, node, mod):
         if isinstance(v, Obj):
+            if attr == "__dict__":
+                return DictV.alias(v.fields)
+            if attr == "__class__" and v.cls is not None:
+                return ClassRef(v.cls)
             if attr in v.fields:
                 return v.fields[attr]
             c = v.cls
@@ -907,6 +978,10 @@ class Ev:
             c = v.cls
             if c.is_enum and attr in c.enum_members():
                 return EnumMember(c, attr, self.ev(c.enum_members()[attr], {"__mod__": c.mod}, c.mod))
+            if attr == "__new__":
+                return Builtin("__new__")
+            if attr == "__name__":
+                return Str.lit(c.name)
             got = self.repo.find_method(c, attr)
             if got[1] is not None:
                 owner, fn = got
@@ -936,6 +1011,8 @@ class Ev:
     def call_fn(self, f, args, kwargs, node):
         fn = f.fn
         qn = "%s.%s" % (f.cls.name, fn.name) if f.cls is not None else fn.name
+        if self.assume_valid and f.mod is not None and f.mod.rel.endswith("common/validity.py") and fn.name.startswith("is_"):
+            return True  # the symbolic arguments stand for valid inputs
         if qn in self.stubs:
             return self.stubs[qn](self.bind_args(fn, args, kwargs, receiver=f.self_val, drop_first=False, mod=f.mod))
         if qn in self.opaque_calls:
@@ -1319,6 +1396,8 @@ class Ev:
                 return -v
             if isinstance(e.op, ast.USub) and is_numeric(v):
                 return Term("neg", [v])
+            if isinstance(e.op, ast.UAdd) and is_numeric(v):
+                return v
             raise AnalysisError("unary operation at line %d" % e.lineno)
         if isinstance(e, ast.Compare):
             left = self.ev(e.left, env, mod)
@@ -1408,6 +1487,11 @@ class Ev:
                             raise
                     raise _Raise(e, "%r is not a valid %s" % (args[0], c.name))
                 got = self.repo.find_method(c, "__init__")
+                if c.name in self.instantiate:
+                    o = Obj(c, {}, closed=True)
+                    if got[1] is not None:
+                        self.call_fn(FuncV(got[1], self_val=o, cls=got[0], mod=got[0].mod), args, kwargs, e)
+                    return o
                 if got[1] is None:
                     return Ctor(c.name, dict(kwargs, **{"arg%d" % i: a for i, a in enumerate(args)}))
                 owner, init = got
@@ -1468,7 +1552,23 @@ class Ev:
         if name == "type" and len(args) == 1:
             if isinstance(args[0], Obj) and args[0].cls is not None:
                 return ClassRef(args[0].cls)
+            if isinstance(args[0], NoneT):
+                return Builtin("NoneType")
             raise AnalysisError("type(%r) at line %d" % (args[0], e.lineno))
+        if name == "id" and len(args) == 1:
+            return IdV(args[0])
+        if name == "__new__" and len(args) == 1 and isinstance(args[0], ClassRef):
+            return Obj(args[0].cls, {}, closed=True)
+        if name == "setattr" and len(args) == 3 and isinstance(args[0], Obj) and isinstance(args[1], Str) and args[1].is_lit():
+            o, a = args[0], args[1].text()
+            if o.cls is not None:
+                owner, pr = self.repo.find_prop(o.cls, a)
+                if pr and pr.get("set") is not None:
+                    self.call_fn(FuncV(pr["set"], self_val=o, cls=owner, mod=owner.mod), [args[2]], {}, e)
+                    return NONE
+            o.fields[a] = args[2]
+            self.trace.append(("store", e, (o, a, args[2])))
+            return NONE
         if name == "hasattr" and len(args) == 2 and isinstance(args[1], Str) and args[1].is_lit():
             o, a = args[0], args[1].text()
             if isinstance(o, Obj):
@@ -1509,7 +1609,17 @@ class Ev:
                 return ListV([Str.lit(t) for t in sorted(x.text() for x in items)])
             raise Undecided("sorted(%r)" % (items,))
         if name == "dict":
-            return DictV(kwargs)
+            out = DictV()
+            for a in args:
+                if isinstance(a, DictV):
+                    out.d.update(a.d)
+                else:
+                    for pair in self.iterate(a, e):
+                        if not (isinstance(pair, ListV) and len(pair.items) == 2):
+                            raise AnalysisError("dict(%r) at line %d" % (pair, e.lineno))
+                        out.d[self.key_of(pair.items[0])] = pair.items[1]
+            out.d.update(kwargs)
+            return out
         raise AnalysisError("builtin %s at line %d is not modelled" % (name, e.lineno))
 
     def isinstance(self, v, t, e):
@@ -1520,7 +1630,7 @@ class Ev:
                 n = x.name
                 if isinstance(v, Frag):
                     raise Undecided("isinstance of a fragment")
-                if n == "list" and isinstance(v, ListV) and not isinstance(v, TupV):
+                if n == "list" and isinstance(v, ListV) and not isinstance(v, (TupV, SetV)):
                     return True
                 if n == "tuple" and isinstance(v, TupV):
                     return True
@@ -1534,14 +1644,22 @@ class Ev:
                     return True
                 if n == "dict" and isinstance(v, DictV):
                     return True
+                if n == "NoneType" and isinstance(v, NoneT):
+                    return True
+                if n == "set" and isinstance(v, SetV):
+                    return True
             elif isinstance(x, ClassRef):
                 if isinstance(v, EnumMember) and v.cls is x.cls:
                     return True
                 if isinstance(v, Obj) and v.cls is not None and x.cls in self.repo.mro(v.cls):
                     return True
             elif isinstance(x, ModRef):
-                # typing aliases: List / Tuple / ...
+                # an outside class: decided by the declared outside types of the object; typing aliases: List / Tuple / ...
                 n = x.name.split(".")[-1]
+                if isinstance(v, Obj) and hasattr(v, "ext_types"):
+                    if n in v.ext_types:
+                        return True
+                    continue
                 if n in ("List", "Sequence", "Iterable", "list") and isinstance(v, ListV):
                     return True
             else:
